@@ -1,7 +1,14 @@
 //verif:package github.com/kstenerud/go-concise-encoding/internal/verifself
+//verif:config cap=300
 package verifself
 
-import "github.com/kstenerud/go-concise-encoding/internal/verifrt"
+import (
+	"fmt"
+	"strconv"
+	"strings"
+
+	"github.com/kstenerud/go-concise-encoding/internal/verifrt"
+)
 
 func abs(x int32) int32 {
 	if x < 0 {
@@ -51,4 +58,59 @@ func Verif_T00_Panic() {
 	}()
 	_ = arr[x]
 	verifrt.Assert(x < 3, "in range")
+}
+
+// The engine's symbolic fmt.Sprintf model must agree with strconv (whose real
+// source is interpreted) for every value; a disagreement shows up as a
+// violation that does NOT reproduce natively (replay-mismatch).
+func zeroPad(s string, width int) string {
+	neg := len(s) > 0 && s[0] == '-'
+	if neg {
+		s = s[1:]
+	}
+	for len(s)+boolInt(neg) < width {
+		s = "0" + s
+	}
+	if neg {
+		s = "-" + s
+	}
+	return s
+}
+
+func boolInt(b bool) int {
+	if b {
+		return 1
+	}
+	return 0
+}
+
+func Verif_T00_SprintfModel() {
+	specs := []string{"%v", "%d", "%b", "%08b", "%o", "%03o", "%x", "%02x", "%X", "%016b", "%06o", "%04x"}
+	bases := []int{10, 10, 2, 2, 8, 8, 16, 16, 16, 2, 8, 16}
+	widths := []int{0, 0, 0, 8, 0, 3, 0, 2, 0, 16, 6, 4}
+	k := verifrt.Choice("spec", len(specs))
+	kind := verifrt.Choice("kind", 4)
+	var got, want string
+	switch kind {
+	case 0:
+		x := verifrt.U8("x")
+		got = fmt.Sprintf(specs[k], x)
+		want = zeroPad(strconv.FormatUint(uint64(x), bases[k]), widths[k])
+	case 1:
+		x := verifrt.I8("x")
+		got = fmt.Sprintf(specs[k], x)
+		want = zeroPad(strconv.FormatInt(int64(x), bases[k]), widths[k])
+	case 2:
+		x := verifrt.U16("x")
+		got = fmt.Sprintf(specs[k], x)
+		want = zeroPad(strconv.FormatUint(uint64(x), bases[k]), widths[k])
+	case 3:
+		x := verifrt.I16("x")
+		got = fmt.Sprintf(specs[k], x)
+		want = zeroPad(strconv.FormatInt(int64(x), bases[k]), widths[k])
+	}
+	if specs[k] == "%X" {
+		want = strings.ToUpper(want)
+	}
+	verifrt.Assert(got == want, "symbolic Sprintf model equals strconv")
 }
